@@ -1350,7 +1350,11 @@ def rule_posted_kept(ctx: Ctx, prog: Program) -> None:
                 if isinstance(base, ast.Attribute) and base.attr == "propagators":
                     n_writers += 1
                     fresh = isinstance(n, (ast.Assign, ast.AnnAssign)) and not isinstance(t, ast.Subscript) and isinstance(n.value, ast.List) and not n.value.elts
-                    if fresh and f.name == "__init__":
+                    same = isinstance(n, ast.Assign) and isinstance(n.value, ast.Call) and ast.unparse(n.value.func).split(".")[-1] in ("sorted", "list", "copy", "deepcopy") \
+                        and n.value.args and ast.unparse(n.value.args[0]) == ast.unparse(t)
+                    if same:
+                        ctx.ok("R-POSTED-KEPT", f"{f.qualname}: the list of constraints is re-ordered / copied as a whole", nontrivial=False)
+                    elif fresh and f.name == "__init__":
                         ctx.ok("R-POSTED-KEPT", f"{f.qualname}: the list of constraints starts empty", nontrivial=False)
                     elif isinstance(n, ast.AugAssign) and isinstance(n.op, ast.Add):
                         ctx.ok("R-POSTED-KEPT", f"{f.qualname}: constraints are added (+=)", nontrivial=False)
